@@ -26,7 +26,8 @@ impl CountMinSketch {
         }
 
         let ctrs = next_power_of_2(ctrs);
-        let hctrs = ctrs / 2;
+        // two 4-bit counters per byte; a sketch of width 1 still needs one byte per row
+        let hctrs = core::cmp::max(ctrs / 2, 1);
 
         let this = Self {
             rows: [
